@@ -31,6 +31,7 @@ CFG_MC = """CONSTANTS
   RectShapes <- MCRectShapes
   Graphs <- MCGraphs
   C2Q <- MCC2Q
+  ZerothPairs <- MCZerothPairs
   WeightPairs <- MCWeightPairs
   Patterns <- MCPatterns
   Splits <- MCSplits
@@ -44,6 +45,7 @@ CFG_TRACE = """CONSTANTS
   RectShapes = {}
   Graphs = {}
   C2Q = {}
+  ZerothPairs = {}
   WeightPairs = {}
   Patterns = {}
   Splits = {}
@@ -696,7 +698,7 @@ def _many(jobs):
     return out
 
 
-def validate(ctx, recs, tag, chunk=120):
+def validate(ctx, recs, tag, chunk=300):
     import concurrent.futures as cf
 
     jobs = {}
@@ -732,6 +734,7 @@ def run(ctx):
     splits = synthetic_splits(seed, quick)
     shapes = [(h, w) for h in (3, 4, 5) for w in (3, 4, 5)]
     c2q = [1, 4, 16, 36]
+    zpairs = [(1, 36), (4, 16), (16, 4), (36, 1), (4, 4), (36, 36)] if quick else [(a, b) for a in c2q for b in c2q]
     wpairs = [(1, 2), (2, 1)]
     kinds = [(p, g) for p in sorted(KIND_OF_P) for g in (False, True)]
     max_objs = 3
@@ -739,6 +742,7 @@ def run(ctx):
         "MCRectShapes == {" + ", ".join(f"<<{h},{w}>>" for h, w in shapes) + "}",
         "MCGraphs == " + tla(graphs),
         "MCC2Q == " + tla(set(c2q)),
+        "MCZerothPairs == {" + ", ".join(f"<<{a},{b}>>" for a, b in zpairs) + "}",
         "MCWeightPairs == {" + ", ".join(f"<<{a},{b}>>" for a, b in wpairs) + "}",
         "MCPatterns == {1, 2, 3, 4}",
         "MCSplits == " + tla([{k: v for k, v in s.items() if k != "w"} for s in splits]),
@@ -748,12 +752,12 @@ def run(ctx):
     res = ctx.tlc("Regularization", CFG_MC, defs=defs, tag="MC_Regularization", timeout=1700)
     insts = res.by_kind("inst")
     n_mesh = len(shapes) + len(graphs)
-    expect = n_mesh * (len(c2q) + len(c2q) ** 2 + len(c2q) + 2 * len(wpairs) * 4) + len(splits) + sum(len(kinds) ** k for k in range(1, max_objs + 1))
+    expect = n_mesh * (len(c2q) + len(zpairs) + len(c2q) + 2 * len(wpairs) * 4) + len(splits) + sum(len(kinds) ** k for k in range(1, max_objs + 1))
     if len(insts) != expect or res.distinct != 2 * expect:
         raise core.MachineryError(f"Regularization.tla enumerated {len(insts)} instances / {res.distinct} states, expected {expect}")
     ctx.exhaustive = True
     ctx.bounds = {"rectangular_meshes": "3..5 x 3..5 (all 9)", "delaunay_vertex_sets": {n: len(v) for n, v in family},
-                  "coefficients": "c in {1/2, 1, 2, 3} (c^2 and zeroth c^2 independently)", "adaptive_exact": "inner/outer in {(1,2),(2,1)} x 4 bright-pixel patterns",
+                  "coefficients": "c in {1/2, 1, 2, 3}", "constant_zeroth_pairs_4c2_4cz2": [list(z) for z in zpairs], "adaptive_exact": "inner/outer in {(1,2),(2,1)} x 4 bright-pixel patterns",
                   "synthetic_split_instances": len(splits), "object_lists": f"all lists of length 1..{max_objs} over {len(kinds)} kinds (mapper 3x3, mapper 3x4, 1- and 2-function lists; with / without regularization)",
                   "ternary_vectors_up_to_n": 6, "exact_minors_up_to_n": 4}
     # ---- S->C jobs
@@ -774,7 +778,7 @@ def run(ctx):
         jobs.append({"j": "exact_rand", "seed": int(rng.integers(1, 2 ** 31)), "family": family})
     for _ in range(nr(120, 1500)):
         jobs.append({"j": "fixed", "seed": int(rng.integers(1, 2 ** 31)), "family": family})
-    split_sets = [(n, v) for n, v in family if len(v) >= 3]
+    split_sets = [(n, v) for n, v in family if len(v) >= 4]  # the Voronoi diagram behind the cross points needs >= 4 vertices (qhull); fewer raise the documented MeshException
     for rep in range(nr(2, 12)):
         for name, verts in split_sets:
             for adaptive in (False, True):
